@@ -147,10 +147,14 @@ Definition diag_p (c : pcase) : nat :=
       else if negb (list_eqb oq_eqb (f_losshist o) (p_lossobs c)) then 6 else 0
   end.
 
-(* batch index generator: the observed rows are the model's rows of the observed permutation *)
+(* batch index generator: the observed rows are the model's rows for SOME permutation of 0..n-1; the witness
+   (the observed indices followed by the unused ones) is supplied by the harness and checked here *)
+Definition is_perm_of_range (perm : list nat) (n : nat) : bool :=
+  Nat.eqb (List.length perm) n && forallb (fun i => existsb (Nat.eqb i) perm) (seq 0 n).
 Definition agrees_batches (c : list nat * nat * list (list nat)) : bool :=
   let '(perm, bs, obs) := c in
-  match batch_indices perm bs with
-  | Some bt => list_eqb (list_eqb Nat.eqb) bt obs
-  | None => false
-  end.
+  is_perm_of_range perm (List.length perm)
+  && match batch_indices perm bs with
+     | Some bt => list_eqb (list_eqb Nat.eqb) bt obs
+     | None => false
+     end.
